@@ -15,7 +15,7 @@ func init() {
 			"C14.server-status: in the chunk and index handlers (HTTPHandlerBase.get inlined) status 200 is written only on paths where every lookup/convert call succeeded, a failed lookup is answered with a status >= 400, 404 only for missing/not-found. " +
 			"C14.retry-bounded: every cycle through the request in IssueRetryableHttpRequest increments the attempt counter and passes the attempt<ErrorRetry side of the budget test and a failure test (transport error or status>=500); the give-up return does not pass a 2xx status. " +
 			"C14.protocol: RequestChunk answers MISSING with ChunkMissing, CHUNK through the verifying constructor, anything else with an error. C14.server-loop: ProtocolServer.Serve returns nil only via GOODBYE or cancellation; a MISSING reply continues the session. " +
-			"C14.has-missing: every backend HasChunk (local, HTTP, S3, SFTP, GCS, SSH) answers a missing object with (false, nil). C14.converters: toStorage applies the layers forward, fromStorage backward; Compressor maps to Compress/Decompress.",
+			"C14.header-before-body: in every function holding an http.ResponseWriter no WriteHeader/http.Error is reachable from a write to the same writer (writes by callees summarised). C14.has-missing: every backend HasChunk (local, HTTP, S3, SFTP, GCS, SSH) answers a missing object with (false, nil). C14.converters: toStorage applies the layers forward, fromStorage backward; Compressor maps to Compress/Decompress.",
 		NotDecided: "data preservation through zstd and the network; the exact number of attempts for a concrete response sequence; S3/SFTP HasChunk answering (false,nil) for every error is reported as an observation only (the property names HTTP and the casync protocol).",
 		Rules: []rule{
 			{"C14.client-status", "HTTP client: success only for 200(/201), absent only for 404, errors passed on; NoSuchObject->ChunkMissing only", 4, c14ClientStatus},
@@ -31,6 +31,7 @@ func init() {
 			{"C14.converters", "converter layers forward on store, backward on read", 3, c14Converters},
 			{"C14.message-body-fresh", "a protocol message's body is its own allocation", 1, func(c *Ctx) { c.messageBodyFresh() }},
 			{"C14.retried-reader-fresh", "a reader consumed inside a retry cycle is created inside it", 1, func(c *Ctx) { c.retriedReaderFresh() }},
+			{"C14.header-before-body", "HTTP handlers set the status before they write any body byte", 26, func(c *Ctx) { c.headerBeforeBody() }},
 			{"C14.server-plumbing", "the chunk server's verify/write/auth options reach the handler arguments they are named after (shared with C15)", 8, c15Plumbing},
 		},
 	})
